@@ -10,6 +10,15 @@
     * the rejection samplers return the first in-range draw of the stream;
     * the law of the unit noise: sup-distance between the empirical CDF of n draws of the real sampler and the
       reference CDF, threshold from the Dvoretzky–Kiefer–Wolfowitz inequality (see `dkw_threshold`).
+    The KS tests are supporting validation of the RUNNING code.  For the model they are no longer the only evidence:
+    Lean (C03.lean §8) proves, as push-forwards of Lebesgue measure on [0,1)^4 resp. of N(0,1)⊗N(0,1), that the 4-uniform
+    expression is standard Laplace (`laplace4_law`), that `Laplace.randomise` has C02's Laplace law with the coded scale and
+    is (ε,δ)-DP as sampled, truncated/folded included (`laplace_mech_law`, `laplace_sampler_dp`,
+    `laplace_truncated_folded_sampler_dp`), that (N1+N2)/√2 is standard normal and `Gaussian.randomise` ~ N(value, scale²)
+    (`gauss_unit_law`, `gauss_mech_law`), −log(1−U) ~ Exp(1) (`exp_of_uniform_map`), that four independent Gamma(d/4) draws
+    times scale sum to Gamma(d, rate 1/scale) (`gamma_sum_law`, push-forward of the product of Mathlib's `gammaMeasure`), and
+    acceptance–rejection over an i.i.d. stream (`rejection_conditional_law`, `boundedDomain_law`,
+    `discrete_gauss_loop_law`).  What is still only validated is listed in UNPROVED.
 """
 import math
 import secrets
@@ -25,8 +34,12 @@ EPS = 2.220446049250313e-16
 
 TRUSTED = [
     "modelled, not verified: numpy/CPython float arithmetic = IEEE binary64 = Lean `Float` (+,-,*,/,sqrt,cos,pow "
-    "bit-exact; exp/log within 1 ulp); `random()` uniform on [0,1) with independent successive draws; the laws of the "
-    "library samplers `normalvariate`, `gammavariate`, `RandomState.geometric`, `multivariate_normal`",
+    "bit-exact; exp/log within 1 ulp); `random()` uniform on [0,1) with independent successive draws (in Lean: the "
+    "product of `unif01 = volume.restrict [0,1)`); the laws of the library samplers `normalvariate` (in Lean: "
+    "`gaussianReal 0 1`, independent draws), `gammavariate` (in Lean: `gammaMeasure (d/4) 1` times scale, independent "
+    "draws), `RandomState.geometric`, `multivariate_normal`; the law "
+    "theorems of C03 section 8 are about exact real arithmetic on those ideal draws, not about binary64 rounding or the "
+    "53-bit grid of `random()`",
     "GaussianAnalytic / GaussianDiscrete / LaplaceBoundedDomain: the calibrated `_scale` is read from the mechanism "
     "object (its correctness is C02's subject); C03 checks that the noise is that scale times the unit noise",
     "Bingham: only the acceptance test is modelled (coded ratio, tied by measuring the real sampler's acceptance "
@@ -35,20 +48,22 @@ TRUSTED = [
     "parameter validation (`_check_all`) is not modelled here (C13)",
 ]
 UNPROVED = [
-    "log(1-u1)cos(pi u2)+log(1-u3)cos(pi u4) is standard Laplace (validated: KS distance of the real sampler's "
-    "noise/scale against the Laplace CDF, DKW threshold, false-alarm < 1e-14 per test)",
-    "(N1+N2)/sqrt(2) is standard normal (validated: KS against the normal CDF)",
-    "four Gamma(d/4, scale) draws sum to Gamma(d, scale); a normalised Gaussian vector is uniform on the sphere "
-    "(validated: KS of |b|/scale against Gamma(d,1), of every coordinate of b/|b| against its Beta marginal, of the "
-    "angle for d = 2)",
-    "GaussianDiscrete: proved are the stop law of bernoulli_neg_exp's loop (sum over even stops = exp(-g), g <= 1) and "
-    "proposal x acceptance = const x exp(-k^2/(2 sigma^2)); the composition of these branches into the law of the whole "
-    "loop (independence of successive draws, the recursion for g > 1, conditioning on acceptance) is validated only: sup "
-    "over atoms of the real sampler's noise against the discrete Gaussian CDF",
+    "Vector: a normalised Gaussian vector is uniform on the sphere (validated: KS of every coordinate of b/|b| against "
+    "its Beta marginal, of the angle for d = 2; the norm's law - four Gamma(d/4, scale) draws sum to Gamma(d, scale) - is "
+    "now proved, gamma_sum_law, and its KS test of |b|/scale against Gamma(d,1) stays as supporting validation)",
+    "GaussianDiscrete: proved are the stop law of bernoulli_neg_exp's loop (sum over even stops = exp(-g), g <= 1), "
+    "proposal x acceptance = const x exp(-k^2/(2 sigma^2)), and the conditioning step over i.i.d. passes "
+    "(discrete_gauss_loop_law); NOT proved (Lean: def cks_loop_law_full): that the passes of the model's loop over an "
+    "i.i.d. UNIFORM stream are i.i.d. with that one-pass law - composition of the branches inside a pass (geomCount is a "
+    "loop of bernoulli_neg_exp calls, the recursion for g > 1) and the renewal argument for a random number of consumed "
+    "uniforms; validated only: sup over atoms of the real sampler's noise against the discrete Gaussian CDF",
     "Bingham's rejection sampler (validated in 2-D: KS of the doubled angle against the von Mises law; at HEAD this "
     "FAILS — known finding C03:bingham:law:acceptance-inverted, counter-example theorem bingham_accept_cex)",
-    "the conditional law of the rejection samplers as a measure-theoretic statement (proved: first accepted draw of "
-    "the stream; validated: KS against the conditioned Laplace CDF)",
+    "the rejection samplers (LaplaceBoundedDomain / LaplaceBoundedNoise): proved are 'first accepted draw of the stream' "
+    "(any carrier), the law of each candidate (laplace4_law) and the conditional law for an i.i.d. stream of candidates "
+    "(boundedDomain_law); NOT proved: that the batch layout of the loop (sample i of a batch of s uses uniforms i, s+i, "
+    "2s+i, 3s+i) turns an i.i.d. uniform stream into an i.i.d. candidate stream (a fixed permutation of coordinates); "
+    "validated: KS against the conditioned Laplace CDF",
     "Snapping: the law of the released grid point (validated: sup over atoms against the rounded, clamped Laplace law)",
 ]
 RULE = ("per mechanism kind, parameters, inputs and random streams are generated from the seed; every stream is run on the "
@@ -96,13 +111,37 @@ class ScriptedRS2(np.random.RandomState):
     """RandomState whose standard_normal / gamma are scripted: drives the `except AttributeError` (seeded) branches of
     Gaussian.randomise and Vector.randomise.  gamma(shape, scale, size) returns unit gammas × scale, like numpy does."""
 
-    def __init__(self, normals=(), gammas=()):
+    def __init__(self, normals=(), gammas=(), uniforms=(), bits=()):
         super().__init__(0)
         self.normals = list(normals)
         self.gammas = list(gammas)
+        self.u = list(uniforms)
+        self.bits = list(bits)
         self.n_normal = 0
         self.n_gamma = 0
+        self.n_uniform = 0
+        self.n_bits = 0
         self.log = []
+
+    def random(self, size=None):
+        """`rng.random()` and the vectorised `rng.random(4 * samples)` of the rejection samplers"""
+        k = 1 if size is None else int(np.prod(size))
+        if self.n_uniform + k > len(self.u):
+            raise seams.ScriptExhausted("uniform script exhausted")
+        v = self.u[self.n_uniform:self.n_uniform + k]
+        self.n_uniform += k
+        return v[0] if size is None else np.array(v, dtype=float).reshape(size)
+
+    def randint(self, low, high=None, size=None, dtype=int):
+        """Snapping's `_getrandbits` fallback: `rng.randint(0, 2 ** bits)`"""
+        if high is None:
+            low, high = 0, low
+        i = self.n_bits
+        self.n_bits += 1
+        if i >= len(self.bits):
+            raise seams.ScriptExhausted("bits script exhausted")
+        self.log.append(("getrandbits", int(high).bit_length() - 1))
+        return low + self.bits[i] % (high - low)
 
     def standard_normal(self, size=None):
         k = 1 if size is None else int(np.prod(size))
@@ -124,7 +163,8 @@ class ScriptedRS2(np.random.RandomState):
 
 def make_rng(kind, script):
     if script.get("rs"):
-        return ScriptedRS2(normals=script.get("normals", ()), gammas=script.get("gammas", ()))
+        return ScriptedRS2(normals=script.get("normals", ()), gammas=script.get("gammas", ()),
+                           uniforms=script.get("u", ()), bits=script.get("bits", ()))
     if kind == "stair":
         return seams.ScriptedRandomState(uniforms=script.get("u", ()), geometrics=script.get("geom", ()))
     return seams.ScriptedSystemRandom(uniforms=script.get("u", ()), bits=script.get("bits", ()),
@@ -374,6 +414,12 @@ def stat_cases(r):
     cases.append(("vec", {"eps": r.loguniform(0.3, 5.0), "fs": 0.0, "ds": 1.0, "d": 2, "alpha": 1.0, "n": 1}))
     cases.append(("vec", {"eps": r.loguniform(0.3, 5.0), "fs": 0.0, "ds": 1.0, "d": r.randint(2, 5), "alpha": 1.0, "n": 1, "rs": True}))
     cases.append(("gauss", {"eps": r.uniform(0.1, 1.0), "delta": r.loguniform(1e-6, 0.1), "sens": 1.0, "rs": True}))
+    lo2 = r.uniform(-3, 3)
+    cases.append(("bdom", {"eps": r.loguniform(0.3, 3.0), "delta": 0.0, "sens": 1.0, "lo": lo2, "hi": lo2 + r.uniform(1.0, 4.0), "rs": True}))
+    cases.append(("bnoise", {"eps": r.loguniform(0.3, 3.0), "delta": r.uniform(0.02, 0.4), "sens": 1.0, "rs": True}))
+    cases.append(("gaussA", {"eps": r.loguniform(0.1, 8.0), "delta": r.loguniform(1e-6, 0.1), "sens": 1.0, "rs": True}))
+    cases.append(("snap", {"eps": r.loguniform(0.3, 4.0), "sens": 1.0, "lo": -40.0, "hi": 40.0, "rs": True}))
+    cases.append(("snapu", {"rs": True}))
     cases.append(("snapu", {}))
     cases.append(("snap", {"eps": r.loguniform(0.3, 4.0), "sens": 1.0, "lo": -40.0, "hi": 40.0}))
     cases.append(("bingham", {"eps": r.loguniform(0.5, 6.0), "sens": 1.0, "l1": r.uniform(1.0, 3.0),
@@ -626,6 +672,9 @@ def gen_case(kind, r):
             words.append(0)
         words.append(r.choice([1, r.randint(1, 2 ** 32 - 1), r.randint(1, 2 ** 32 - 1), r.randint(1, 255)]))
         script["bits"] = [r.randint(0, 1), r.randint(0, 2 ** 52 - 1)] + words
+    if kind in ("lap", "trunc", "fold", "bdom", "bnoise", "dgauss", "unif", "snap"):
+        # numpy back-end (random_state an int / RandomState): rng.random(size), rng.randint instead of getrandbits
+        script["rs"] = r.chance(0.4)
     return {"kind": kind, "params": p, "xs": xs, "script": script}
 
 
@@ -1061,7 +1110,7 @@ def compare_case(ctx, case, info, outs):
             nwords = int(w[1])
             if klog != [1, 52] + [32] * nwords:
                 return dis("random bits requested", [1, 52] + [32] * nwords, klog)
-            rng = make_rng("snap", {"bits": sc["bits"][1:]})
+            rng = make_rng("snap", {"bits": sc["bits"][1:], "rs": sc.get("rs")})
             mm = mk_mech("snap", p, rng)
             iu = float(mm._uniform_sampler())
             if b2f(int(w[0])) != iu:
@@ -1112,7 +1161,7 @@ def dgauss_boundary(scale, us):
 def snap_boundary(m, p, x, sc):
     """is the noisy value within rounding of a grid mid-point or of the clamp? (model and code differ by one ulp in log)"""
     try:
-        rng = make_rng("snap", {"bits": sc["bits"][1:]})
+        rng = make_rng("snap", {"bits": sc["bits"][1:], "rs": sc.get("rs")})
         mm = mk_mech("snap", p, rng)
         u = float(mm._uniform_sampler())
         scale = 1.0 / mm.effective_epsilon()
